@@ -160,6 +160,16 @@ def r2_counters_pair(ck, P):
             if cc is not None and cc.op == 'icmp' and cc.pred in ('eq', 'ne') and any(o[0] == 'ce' for o in cc.a) and ('field', SLOT) in f.atoms(br.a[0]):
                 if (cc.pred == 'eq') == (br.d['succ'][0] == succ):
                     okdec = True
+    # the tombstone test must look at the slot's previous content: its load may not come after the glyph has been stored there
+    if okdec:
+        for x in dec:
+            for br, succ in f.control_conditions(x.bb.id, transitive=False):
+                cc = f.v(br.a[0]) if br.a else None
+                if cc is not None and cc.op == 'icmp':
+                    for o in cc.a:
+                        y = f.v(f.strip_casts(o))
+                        if y is not None and y.op == 'load' and f.dominates(st, y):
+                            okdec = False
     if okdec:
         ck.ok(R, 'insert: n_tombstones-- iff the reused slot held a tombstone')
     else:
